@@ -76,6 +76,10 @@ def run(chk):
         # an already populated output directory
         pre = [(rng.choice(["old.py", "a/old.py", files[0][0][:-6] + ".py"]), "old content\n"), ("keep/readme.txt", "x")]
         cases.append(("%s_pre" % base, "pre", files, {r: "g" for r, _ in files}, tuple(pre), base))
+        # every mirrored output path already holds a LONGER stale file (an earlier, bigger version of the project)
+        stale = "".join("stale_%d = (%d,\n" % (i, i) for i in range(400))
+        pre2 = [(r[:-6] + ".py", stale) for r, _ in files] + [("keep/readme.txt", "x")]
+        cases.append(("%s_prelong" % base, "pre", files, {r: "g" for r, _ in files}, tuple(pre2), base))
         # an unrelated file defining only fresh names
         extra = files + [("z/extra%d.mamba" % k, "class Fresh%d\ndef fresh%d(x: Int) -> Int => x\n" % (k, k))]
         cases.append(("%s_extra" % base, "extra", extra, {r: "g" for r, _ in extra}, (), base))
